@@ -197,7 +197,7 @@ Proof.
   destruct ep1 as [[s1 ob1 n1] p1], ep2 as [[s2 ob2 n2] p2].
   unfold rel. cbn [fst snd e_state e_steps].
   intros (Hs & Hn & Hp) H NN. subst s2 n2 p2.
-  destruct o1 as [|x1 k1|i1 x1 k1|i1|], o2 as [|x2 k2|i2 x2 k2|i2|];
+  destruct o1 as [|x1 k1|i1 x1 k1|i1| |], o2 as [|x2 k2|i2 x2 k2|i2| |];
     cbn [sem_op] in H, NN; cbn [run_op];
     repeat match goal with
     | H : context [option_map _ (decode_arg ?a ?b ?c)] |- _ => destruct (decode_arg a b c) eqn:?
@@ -220,6 +220,8 @@ Proof.
   - (* goal / goal *)
     inversion H; subst.
     destruct (nth_error p1 i2) as [st|]; cbn [fst snd e_state e_steps proj_out]; auto.
+  - (* generate_initial_state / generate_initial_state *)
+    cbn [fst snd e_state e_steps proj_out]. auto.
 Qed.
 
 Lemma run_ops_rel sc m1 m2 : forall ops1 ops2 ep1 ep2,
